@@ -111,7 +111,8 @@ def _mk_body(sname, scfg, rig: Rig):
         nth = rig.counters.get(base, 0)
         rig.counters[base] = nth + 1
         key = (sname, uid, retry, nth)
-        rig.live[sname] = rig.live.get(sname, 0) + 1
+        live = rig.live            # the counters of the run this body belongs to (a resumed run gets fresh ones)
+        live[sname] = live.get(sname, 0) + 1
         wid = -1
         if rig.wid_of is not None:
             try:
@@ -124,7 +125,7 @@ def _mk_body(sname, scfg, rig: Rig):
                   "exc": type(ev.exception).__name__}
         rig.log({"e": "step_start", "step": sname, "uid": uid, "ty": ty, "retry": retry, "nth": nth, "sf": sf,
                  "sf_input": E.uid_of(ev.input_event) if ty == "Failed" else "",
-                 "live": rig.live[sname], "depth": uid.count("F("), "wid": wid,
+                 "live": live[sname], "depth": uid.count("F("), "wid": wid,
                  "ri_elapsed_ms": int(round(ri.elapsed_seconds * 1000)),
                  "ri_last_exc": type(ri.last_exception).__name__ if ri.last_exception is not None else "none"})
         how = "?"
@@ -228,7 +229,7 @@ def _mk_body(sname, scfg, rig: Rig):
             how = "raise:" + type(ex).__name__
             raise
         finally:
-            rig.live[sname] -= 1
+            live[sname] -= 1
             rig.log({"e": "step_end", "step": sname, "uid": uid, "retry": retry, "nth": nth, "how": how, "wid": wid})
 
     return body
